@@ -224,6 +224,8 @@ def run(run, model):
                 ok, detail, node = ck.gate(ev, set())
                 run.check(ok, "C09.raise-site", "%s:%s" % (ck.fi.qual, kind), "the wrapper raises the very value the helper returned", detail, ck.loc(node), None, first_line(node.stmt))
     run.do(gates.c08_place, model, "C09.old-for-error")
+    from . import fwd
+    run.do(fwd.forwarding, model, "C09.error-forwarded", ("error",))
     run.minimum("C09.dispatch", 9, "7 kinds, factories split by result")
     run.minimum("C09.validate", 23, "3 decorators x 7 kinds + 2 sibling comparisons")
     run.minimum("C09.raise-site", 5)
